@@ -7,6 +7,54 @@ fn show_ints(v: &[i64]) -> String {
     format!("i:{}", v.iter().map(|x| x.to_string()).collect::<Vec<_>>().join(","))
 }
 
+// defer programs (C19): items `d` = defer!(log.push(next label)), `{` `}` = nested block, `r` = early return, `p` = panic.
+// Every `d` is a real `defer!` guard living in a stack frame of this interpreter, so the order in which the closures
+// run is decided by Rust's drop semantics (scope end, return, unwinding), not by this code.
+enum Flow {
+    End,           // the program text ended: the function returns normally
+    Closed(usize), // the current block was closed; continue at this position in the enclosing block
+    Ret,           // early return
+}
+
+fn defer_block(prog: &[u8], mut i: usize, next: &std::cell::Cell<u32>, log: &std::cell::RefCell<Vec<u32>>) -> Flow {
+    loop {
+        if i >= prog.len() {
+            return Flow::End;
+        }
+        match prog[i] {
+            b'd' => {
+                let k = next.get();
+                next.set(k + 1);
+                defer!(log.borrow_mut().push(k));
+                return defer_block(prog, i + 1, next, log);
+            },
+            b'{' => match defer_block(prog, i + 1, next, log) {
+                Flow::Closed(j) => i = j,
+                other => return other,
+            },
+            b'}' => return Flow::Closed(i + 1),
+            b'r' => return Flow::Ret,
+            b'p' => panic!("defer program panic"),
+            _ => i += 1,
+        }
+    }
+}
+
+fn defer_run(prog: &str) -> String {
+    let next = std::cell::Cell::new(0u32);
+    let log = std::cell::RefCell::new(Vec::<u32>::new());
+    let prev = std::panic::take_hook();
+    std::panic::set_hook(Box::new(|_| {}));
+    let r = std::panic::catch_unwind(std::panic::AssertUnwindSafe(|| defer_block(prog.as_bytes(), 0, &next, &log)));
+    std::panic::set_hook(prev);
+    let ending = match r {
+        Ok(Flow::End) | Ok(Flow::Closed(_)) => "n",
+        Ok(Flow::Ret) => "r",
+        Err(_) => "p",
+    };
+    format!("ok d:{}|{}", log.borrow().iter().map(|x| x.to_string()).collect::<Vec<_>>().join(","), ending)
+}
+
 fn items(len: i64) -> std::ops::Range<i64> {
     0..len
 }
@@ -23,6 +71,7 @@ pub fn call(fnname: &str, args: &[&str], touched: &mut Vec<String>) -> Option<St
         ("it_last_result", 1) => { let len = int(0)?; guarded(|| show_res(items(len).last_result(), |x| format!("n:{}", x))) },
         ("it_single", 1) => { let len = int(0)?; guarded(|| show_res(items(len).single(), |x| format!("n:{}", x))) },
         ("it_some", 1) => { let len = int(0)?; guarded(|| format!("ok {}", show_bool(items(len).some()))) },
+        ("defer", 1) => { let a = s(0)?; defer_run(&a) },
         ("str_size", 1) => { let a = s(0)?; guarded(|| format!("ok n:{}", a.size())) },
         ("str_to_bool", 1) => { let a = s(0)?; guarded(|| format!("ok {}", show_bool(a.to_bool()))) },
         ("str_trim_suffix", 2) => { let (a, b) = (s(0)?, s(1)?); guarded(|| format!("ok {}", show_str(&a.trim_suffix(b.clone())))) },
